@@ -1,6 +1,7 @@
 """C17 — parameter transforms: correspondence between rex.base transforms and the Gallina model Tree.v (over Q),
 plus Coq-certified enclosures for Exponential."""
 import json, os
+from typing import Any
 from fractions import Fraction
 from . import lib
 
@@ -263,6 +264,51 @@ def exp_cases(chk, n):
     chk.traces_impl += len(xs)
 
 
+def extend_attribute_trees(chk):
+    """Extend on trees whose nodes are dataclasses / namedtuples (attribute keys), with field names that are prefixes of one another (`mass` / `mass_offset`,
+    `max_th` / `max_thdot` as in rex's own pendulum example): supplied leaves stay untouched, missing ones are filled from the base - leaf by leaf, whatever the
+    names look like. (Extend.inv is not claimed: it fails under the installed JAX on the unchanged tree.)"""
+    import itertools, collections
+    import jax.numpy as jnp
+    from flax import struct
+    from rex import base as rb
+
+    @struct.dataclass
+    class Agent:
+        max_th: Any
+        max_thdot: Any
+        gain: Any
+
+    @struct.dataclass
+    class World:
+        mass: Any
+        mass_offset: Any
+        length: Any
+    NT = collections.namedtuple("NT", ["tau", "tau_max"])
+    base = dict(agent=Agent(jnp.float32(3.0), jnp.float32(9.0), jnp.float32(0.5)), world=World(jnp.float32(1.0), jnp.float32(7.0), jnp.float32(2.0)),
+                nt=NT(jnp.float32(4.0), jnp.float32(8.0)))
+    names = [("agent", "max_th"), ("agent", "max_thdot"), ("agent", "gain"), ("world", "mass"), ("world", "mass_offset"), ("world", "length"), ("nt", "tau"), ("nt", "tau_max")]
+    masks = [m for m in itertools.product([False, True], repeat=len(names)) if any(m)]
+    for mi, m in enumerate(chk.rnd.sample(masks, 24) + [tuple(i == j for i in range(len(names))) for j in range(len(names))]):
+        sup = {nm: (jnp.float32(100.0 + 10 * i) if on else None) for i, (nm, on) in enumerate(zip(names, m))}
+        opt = dict(agent=Agent(sup[("agent", "max_th")], sup[("agent", "max_thdot")], sup[("agent", "gain")]),
+                   world=World(sup[("world", "mass")], sup[("world", "mass_offset")], sup[("world", "length")]), nt=NT(sup[("nt", "tau")], sup[("nt", "tau_max")]))
+        case = dict(kind="extend-attribute-tree", supplied=[".".join(nm) for nm, on in zip(names, m) if on])
+        chk.case(("extend-attr", m), ["extend", "attribute-keys", "prefix-named-fields"], None); chk.traces_impl += 1
+        try:
+            out = rb.Extend.init(base, opt).apply(opt)
+        except Exception as e:  # noqa
+            chk.violation("extend-raises-on-attribute-tree", f"Extend.init(base, opt).apply(opt) raised {type(e).__name__}: {str(e)[:200]} for supplied leaves {case['supplied']}", case); continue
+        got = {("agent", f): getattr(out["agent"], f) for f in ("max_th", "max_thdot", "gain")}
+        got.update({("world", f): getattr(out["world"], f) for f in ("mass", "mass_offset", "length")}); got.update({("nt", f): getattr(out["nt"], f) for f in ("tau", "tau_max")})
+        for i, nm in enumerate(names):
+            b = getattr(base[nm[0]], nm[1])
+            want = float(sup[nm]) if sup[nm] is not None else float(b)
+            if got[nm] is None or float(got[nm]) != want:
+                chk.violation("extend-leaf-wrong", f"Extend.apply: leaf {'.'.join(nm)} is {got[nm]}, expected {want} ({'supplied' if sup[nm] is not None else 'base'} value); "
+                              f"supplied leaves: {case['supplied']}", case); break
+
+
 def run(chk, replay=None):
     chk.stage_proofs(kernels=["Transform"])
     n = 120 if chk.tier == "quick" else 1500
@@ -297,6 +343,7 @@ def run(chk, replay=None):
                 d = close(im["inv"], t, ex)
                 if d: chk.violation("roundtrip-fails:" + "+".join(sorted(ks)), f"inv(apply(x)) != x at {d}", case)
     exp_cases(chk, 12 if chk.tier == "quick" else 60)
+    if not replay: extend_attribute_trees(chk)
     chk.extra["rule"] = ("random nested dict trees (depth<=3, None leaves, dyadic leaves k/8) and random chains of 1-4 transforms "
                          "(Identity, Denormalize with per-leaf bounds, Shared by key paths, Extend, nested Chain); a case is "
                          "non-trivial when it contains at least one non-identity transform; distinct by (transform, tree)")
